@@ -1,4 +1,6 @@
 """Helpers over the generic JSON syntax tree produced by engines/astq."""
+import re
+
 import facts
 
 
@@ -438,6 +440,18 @@ def inline_helpers(fn, file, exclude=(), max_rounds=2):
                 return n
             if n.get("k") == "Path" and n["path"] in mapping:
                 return copy.deepcopy(mapping[n["path"]])
+            if n.get("k") == "Macro" and isinstance(n.get("raw"), str):
+                # identifiers captured by a format string (`"{name}.{version}"`) are renamed with the parameter
+                m = {k: rec(v) for k, v in n.items()}
+                raw = n["raw"]
+                for pn_, a_ in mapping.items():
+                    a_s = strip(a_)
+                    while a_s.get("k") in ("Ref", "Unary") and a_s.get("e") is not None:
+                        a_s = strip(a_s["e"])
+                    if a_s.get("k") == "Path" and re.fullmatch(r"\w+", a_s["path"]):
+                        raw = re.sub(r"\{%s(?=[}:])" % re.escape(pn_), "{" + a_s["path"], raw)
+                m["raw"] = raw
+                return m
             if n.get("k") == "Struct":
                 m = {k: rec(v) for k, v in n.items() if k != "fields"}
                 m["fields"] = []
